@@ -60,6 +60,14 @@ def translate(repo=None):
     crv, crstats, _ = readings.emit_readings(ctab, prefix="cs")
     ch1 = C.write_if_changed(os.path.join(C.GEN, "CustomTables.v"), uom2coq.emit(ctab, "cs")) or ch1
     ch1 = C.write_if_changed(os.path.join(C.GEN, "CustomReadings.v"), crv) or ch1
+    # the source of the three conversion functions and of struct Quantity (src/system.rs) as syntax trees
+    import convbody
+    sv, sinfo = convbody.emit(repo)
+    ch1 = C.write_if_changed(os.path.join(C.GEN, "ConvSrc.v"), sv) or ch1
+    data["conv_src"] = {"to_base": [sinfo["to_base"]["cond"], sinfo["to_base"]["then"], sinfo["to_base"]["else"]],
+                        "from_base": [sinfo["from_base"]["cond"], sinfo["from_base"]["then"], sinfo["from_base"]["else"]],
+                        "change_base": [sinfo["change_base"]["cond"], sinfo["change_base"]["then"], sinfo["change_base"]["else"]],
+                        "errors": sinfo["errors"], "struct_attrs": sinfo["struct"]["attrs"], "struct_fields": [list(f) for f in sinfo["struct"]["fields"]]}
     cdata = uom2coq.tables_json(ctab)
     cdata["reading_stats"] = crstats
     data["custom"] = cdata
